@@ -299,7 +299,45 @@ MInv == phase = "done" => InitPost([k \in 1..cur[1] |-> MaskBit(cur[2], k - 1) =
 TraceEvents == LoadTrace
 TInit == phase = "pick" /\ cur = 0 /\ rec = TRUE
 TPick == phase = "pick" /\ \E i \in 1..Len(TraceEvents) : cur' = i /\ phase' = "eval" /\ rec' = rec
-TEval == phase = "eval" /\ rec' = SubRec(Out(TraceEvents[cur]), TraceEvents[cur].out) /\ phase' = "done" /\ cur' = cur
+\* ---- soft (implementation-defined) outputs ---------------------------------------------------------------
+\* Which subset Initialize selects, which matching input it reports, how many iterations it needs (and whether it
+\* gives up before the limit), and the BYTES of a generated proof are implementation-defined: the transcription
+\* predicts them, but C11 promises only the post-conditions below.  An observed event that differs from the
+\* transcription in soft fields only is judged by these post-conditions (replay: engine `soft=`; traces: always).
+SoftInit == { "ret", "idx", "nin", "nused", "ser", "ssize", "sret", "sret_short", "null" }
+Soft(ev) == CASE ev.e = "SjInit" -> SoftInit [] ev.e = "SjGenerate" -> { "proof" } [] OTHER -> { }
+\* Initialize: illegal arguments / nothing can match => 0; a match is forced (pigeonhole) => success; success =>
+\* at most the allowed number of iterations, a proof object with the stated count and exactly the requested number of
+\* selected inputs that serializes consistently, and a returned index that is selected and equals the output tag.
+\* A failure (0) is otherwise accepted: whether the limit was reached depends on the implementation-defined sampling.
+PostInit(i, o) ==
+  LET n == Len(i.tags)  nm == Cardinality({ k \in 1..n : i.tags[k] = i.out }) IN
+  /\ "ret" \in DOMAIN o /\ o.ret >= 0
+  /\ ("alloc" \in DOMAIN i /\ i.alloc = 1) => ("null" \in DOMAIN o /\ o.null = B2I(o.ret = 0))
+  /\ IF n > SjMaxInputs \/ i.nuse > SjMaxUsed \/ i.nuse > n THEN o.ret = 0
+     ELSE /\ (nm = 0 \/ i.nuse = 0) => o.ret = 0
+          /\ (i.nuse >= 1 /\ nm > n - i.nuse) => o.ret >= 1
+          /\ o.ret > 0 =>
+               /\ o.ret <= (IF i.maxiter = 0 THEN 1 ELSE i.maxiter)
+               /\ { "idx", "nin", "nused", "ser", "sret", "ssize", "sret_short" } \subseteq DOMAIN o
+               /\ o.nin = n /\ o.nused = i.nuse /\ o.sret = 1 /\ o.sret_short = 0 /\ o.ssize = Len(o.ser)
+               /\ LET p == SjParse(o.ser) IN
+                  /\ p.ok /\ p.n = n /\ SjPopcount(p.bitmap) = i.nuse
+                  /\ o.idx < n /\ i.tags[o.idx + 1] = i.out /\ SjBit(p.bitmap, o.idx) = 1
+\* Generate for a selected input with opening keys (exp carries the transcribed proof): the OBSERVED proof keeps count
+\* and selection and verifies under the specification's Verify for the same tags.
+PostGen(i, o, exp) ==
+  ("proof" \in DOMAIN exp /\ "ret" \in DOMAIN o /\ o.ret = 1) =>
+     /\ "proof" \in DOMAIN o
+     /\ \/ o.proof = exp.proof /\ exp.vret = 1
+        \/ LET p0 == SjParse(i.proof)  p == SjParse(o.proof) IN
+           /\ p.ok /\ p.n = p0.n /\ p.bitmap = p0.bitmap
+           /\ SjVerify(p.n, p.bitmap, p.data, Pts(GenList(i)), SjParseGen(i.gout)[2])
+Post(ev, exp) == CASE ev.e = "SjInit" -> PostInit(ev.in, ev.out) [] ev.e = "SjGenerate" -> PostGen(ev.in, ev.out, exp) [] OTHER -> TRUE
+Judge(ev) == LET exp == Out(ev) IN
+  /\ \A k \in (DOMAIN exp) \ Soft(ev) : k \in DOMAIN ev.out /\ ev.out[k] = exp[k]
+  /\ Post(ev, exp)
+TEval == phase = "eval" /\ rec' = Judge(TraceEvents[cur]) /\ phase' = "done" /\ cur' = cur
 TNext == TPick \/ TEval
 TraceOK == rec = TRUE
 =============================================================================
